@@ -41,7 +41,9 @@ CELLS = [
     ("guidance_hint", None),
     ("constraint_message", None), ("constraint_message", "L1"),
     ("image", None), ("image", "L1"),
+    ("guidance_hint", "L1"),
 ]
+DLANGS = ["default", "L1", "L3"]
 
 
 def header(kind, lang):
@@ -168,10 +170,16 @@ def itext_refs(root):
     return refs
 
 
-def build(flags, c0, D):
+def build(flags, c0, D, rev=False, qtype="text"):
     texts = [S(c0, 48 + i) for i in range(len(CELLS))]
-    row = {"type": "text", "name": "q1", "constraint": ". != 'x'"}
-    for i, (k, l) in enumerate(CELLS):
+    row = {"type": qtype, "name": "q1", "constraint": ". != 'x'"}
+    if qtype == "calculate":
+        row["calculation"] = "1 + 1"
+    order = list(range(len(CELLS)))
+    if rev:
+        order.reverse()
+    for i in order:
+        k, l = CELLS[i]
         if flags[i]:
             row[header(k, l)] = texts[i]
     wb = {"survey": [row]}
@@ -181,15 +189,7 @@ def build(flags, c0, D):
     return survey.xml(), texts, warnings
 
 
-def c07_question(D_is_L1: bool, f0: bool, f1: bool, f2: bool, f3: bool, f4: bool, f5: bool, f6: bool, f7: bool, f8: bool, f9: bool, c0: int) -> bool:
-    """
-    vpre: f0 or f1 or f2
-    vpre: 33 <= c0 <= 126 and c0 != 36
-    vpost: _ == True
-    """
-    flags = (f0, f1, f2, f3, f4, f5, f6, f7, f8, f9)
-    D = "L1" if D_is_L1 else "default"
-    root, texts, _w = build(flags, c0, D)
+def closure_ok(root, D) -> bool:
     langs, it, dup = parse_itext(root)
     if dup:
         return False
@@ -198,8 +198,9 @@ def c07_question(D_is_L1: bool, f0: bool, f1: bool, f2: bool, f3: bool, f4: bool
     for s in idsets[1:]:
         if s != idsets[0]:
             return False
-    # every reference resolves in every translation
-    for ref in itext_refs(root):
+    # every reference (body, bind messages, choice itextId) resolves in every translation
+    refs = itext_refs(root) + [text_of(e) for e in elements(root, "itextId")]
+    for ref in refs:
         if not langs:
             return False
         for l, _d in langs:
@@ -215,15 +216,27 @@ def c07_question(D_is_L1: bool, f0: bool, f1: bool, f2: bool, f3: bool, f4: bool
     return True
 
 
-def c08_question(D_is_L1: bool, f0: bool, f1: bool, f2: bool, f3: bool, f4: bool, f5: bool, f6: bool, f7: bool, f8: bool, f9: bool, c0: int) -> bool:
+def c07_question(dsel: int, rev: bool, f0: bool, f1: bool, f2: bool, f3: bool, f4: bool, f5: bool, f6: bool, f7: bool, f8: bool, f9: bool, f10: bool, c0: int) -> bool:
     """
     vpre: f0 or f1 or f2
     vpre: 33 <= c0 <= 126 and c0 != 36
     vpost: _ == True
     """
-    flags = (f0, f1, f2, f3, f4, f5, f6, f7, f8, f9)
-    D = "L1" if D_is_L1 else "default"
-    root, texts, _w = build(flags, c0, D)
+    flags = (f0, f1, f2, f3, f4, f5, f6, f7, f8, f9, f10)
+    D = DLANGS[dsel]
+    root, texts, _w = build(flags, c0, D, rev)
+    return closure_ok(root, D)
+
+
+def c08_question(dsel: int, rev: bool, f0: bool, f1: bool, f2: bool, f3: bool, f4: bool, f5: bool, f6: bool, f7: bool, f8: bool, f9: bool, f10: bool, c0: int) -> bool:
+    """
+    vpre: f0 or f1 or f2
+    vpre: 33 <= c0 <= 126 and c0 != 36
+    vpost: _ == True
+    """
+    flags = (f0, f1, f2, f3, f4, f5, f6, f7, f8, f9, f10)
+    D = DLANGS[dsel]
+    root, texts, _w = build(flags, c0, D, rev)
     exp_it, exp_label, exp_hint, exp_cmsg = expected_model(flags, texts, D)
     langs, it, dup = parse_itext(root)
     if dup:
@@ -265,8 +278,8 @@ def c08_question(D_is_L1: bool, f0: bool, f1: bool, f2: bool, f3: bool, f4: bool
     return got == exp_cmsg
 
 
-_SPLIT_Q = {"f0": [False, True], "f1": [False, True], "D_is_L1": [False, True], "f2": [False], "f4": [False], "f9": [False]}
-_SPLIT_T = {"f0": [False, True], "f1": [False, True], "f2": [False, True], "D_is_L1": [False, True]}
+_SPLIT_Q = {"f0": [False, True], "f1": [False, True], "dsel": [0, 2], "rev": [False, True], "f2": [False], "f4": [False], "f9": [False]}
+_SPLIT_T = {"f0": [False, True], "f1": [False, True], "f2": [False, True], "dsel": [0, 1, 2], "rev": [False, True], "f4": [False, True]}
 
 
 def register(prop, fn, oid):
@@ -275,12 +288,13 @@ def register(prop, fn, oid):
         oid,
         fn,
         _SPLIT_Q,
+        skip_if=lambda fx: not (fx["f0"] or fx["f1"]),
         tiers=("quick",),
         timeout=400,
         kernel=K,
         shims=("S1", "S2", "S3", "S4"),
-        symbolic="presence of hint, guidance_hint, constraint_message, constraint_message::L1, image cells (5 symbolic booleans) and the shared tracer character",
-        bounds="one text question; label/label::L1 presence and default_language in {unset, L1} fixed per instance; label::L2, hint::L1, image::L1 absent in the quick tier",
+        symbolic="presence of hint, guidance_hint, guidance_hint::L1, constraint_message, constraint_message::L1, image cells (6 symbolic booleans) and the shared tracer character",
+        bounds="one text question; label/label::L1 presence, default_language in {unset, L3 (not otherwise used)} and column order (sheet order / reversed) fixed per instance; label::L2, hint::L1, image::L1 absent in the quick tier",
         weight=90,
     )
     specialise(
@@ -288,14 +302,188 @@ def register(prop, fn, oid):
         oid + ".full",
         fn,
         _SPLIT_T,
+        skip_if=lambda fx: not (fx["f0"] or fx["f1"] or fx["f2"]),
+        reach_if=lambda fx: fx["dsel"] == 0 and not fx["rev"] and not fx["f4"],
         tiers=("thorough",),
         timeout=1500,
         kernel=K,
         shims=("S1", "S2", "S3", "S4"),
-        symbolic="presence of hint, hint::L1, guidance_hint, constraint_message, constraint_message::L1, image, image::L1 (7 symbolic booleans) and the shared tracer character",
-        bounds="one text question; label/label::L1/label::L2 presence and default_language in {unset, L1} fixed per instance (all 2^10 presence patterns across instances)",
+        symbolic="presence of hint, guidance_hint, guidance_hint::L1, constraint_message, constraint_message::L1, image, image::L1 (7 symbolic booleans) and the shared tracer character",
+        bounds="one text question; label/label::L1/label::L2/hint::L1 presence, default_language in {unset, L1, L3} and column order fixed per instance (all 2^11 presence patterns across instances)",
         weight=600,
     )
 
 
 register("C07", c07_question, "a.question")
+
+
+def c07_calc(dsel: int, rev: bool, f_cm: bool, f_cm1: bool, f_rm1: bool, f_lab1: bool, c0: int) -> bool:
+    """
+    vpre: 0 <= dsel <= 2
+    vpre: 33 <= c0 <= 126 and c0 != 36
+    vpost: _ == True
+    """
+    D = DLANGS[dsel]
+    row = {"type": "calculate", "name": "q1", "calculation": "1 + 1", "constraint": ". != 1", "required": "yes"}
+    cells = []
+    if f_cm:
+        cells.append(("constraint_message", S(c0, 49)))
+    if f_cm1:
+        cells.append(("constraint_message::L1", S(c0, 50)))
+    if f_rm1:
+        cells.append(("required_message::L1", S(c0, 51)))
+    if f_lab1:
+        cells.append(("label::L1", S(c0, 52)))
+    if rev:
+        cells.reverse()
+    for k, v in cells:
+        row[k] = v
+    wb = {"survey": [row, {"type": "text", "name": "q2", "label": "L", "hint::L2": "H"}]}
+    if D != "default":
+        wb["settings"] = [{"default_language": D}]
+    survey, _w, _js = build_survey(wb)
+    return closure_ok(survey.xml(), D)
+
+
+specialise(
+    "C07",
+    "a.calculate",
+    c07_calc,
+    {"rev": [False, True]},
+    timeout=400,
+    kernel=K,
+    shims=("S1", "S2", "S3", "S4"),
+    symbolic="presence of constraint_message, constraint_message::L1, required_message::L1, label::L1 on a calculate row (4 symbolic booleans), default_language over {unset, L1, L3}, shared tracer character",
+    bounds="a calculate question (no body control) next to a text question with hint::L2; column order fixed per instance",
+    weight=100,
+)
+
+
+def c07_msgrefs(which: int, other_translated: bool, in_repeat: bool, c0: int) -> bool:
+    """
+    vpre: 33 <= c0 <= 126 and c0 != 36
+    vpost: _ == True
+    """
+    col = ["constraint_message", "required_message", "no_app_error_string", "hint", "guidance_hint"][which]
+    q1 = {"type": "text", "name": "q1", "label": S(c0, 65), "constraint": ". != 1", "required": "yes", col: "see ${q0} please"}
+    if which == 4:
+        q1["hint"] = "h"
+    if other_translated:
+        q1["label::L1"] = "B"
+    rows = [{"type": "text", "name": "q0", "label": "Q0"}, q1]
+    if in_repeat:
+        rows = [{"type": "begin repeat", "name": "r", "label": "R"}] + rows + [{"type": "end repeat"}]
+    survey, _w, _js = build_survey({"survey": rows})
+    root = survey.xml()
+    for e in elements(root):
+        for a in e.attributes.keys():
+            if "${" in e.getAttribute(a):
+                return False
+    return closure_ok(root, "default")
+
+
+specialise(
+    "C07",
+    "a.message-references",
+    c07_msgrefs,
+    {"which": [0, 1, 2, 3, 4]},
+    timeout=300,
+    kernel=K,
+    shims=("S1", "S2", "S4"),
+    symbolic="another translated column present (boolean), question inside a repeat (boolean), symbolic label character; the message text with its ${q0} reference is concrete (C lexer)",
+    bounds="message column fixed per instance: constraint_message, required_message, no_app_error_string, hint, guidance_hint",
+    weight=40,
+)
+
+
+def c07_choices(usage: int, la0: bool, la1: bool, lb0: bool, lb1: bool, ima: bool, c0: int) -> bool:
+    """
+    vpre: la0 or la1 or ima
+    vpre: lb0 or lb1
+    vpre: 33 <= c0 <= 126 and c0 != 36
+    vpost: _ == True
+    """
+    a = {"list_name": "l1", "name": "a"}
+    b = {"list_name": "l1", "name": "b"}
+    if la0:
+        a["label"] = S(c0, 49)
+    if la1:
+        a["label::L1"] = S(c0, 50)
+    if ima:
+        a["image"] = "a.png"
+    if lb0:
+        b["label"] = S(c0, 51)
+    if lb1:
+        b["label::L1"] = S(c0, 52)
+    rows = [{"type": "select_one l1", "name": "q1", "label": "Q1"}]
+    if usage == 1:
+        rows.append({"type": "select_multiple l1", "name": "q2", "label": "Q2", "choice_filter": "true()"})
+    elif usage == 2:
+        rows[0]["appearance"] = "search('mydata')"
+    survey, _w, _js = build_survey({"survey": rows, "choices": [a, b]})
+    return closure_ok(survey.xml(), "default")
+
+
+specialise(
+    "C07",
+    "b.choices",
+    c07_choices,
+    {"usage": [0, 1, 2]},
+    timeout=400,
+    kernel=K + ("pyxform.survey:Survey._generate_static_instances", "pyxform.survey:Survey._redirect_is_search_itext", "pyxform.question:Itemset.get_options", "pyxform.question:MultipleChoiceQuestion.build_xml"),
+    shims=("S1", "S2", "S3", "S4"),
+    symbolic="presence of label / label::L1 on two choices and an image on the first (5 symbolic booleans; every choice has some label or media), shared tracer character",
+    bounds="one list of 2 choices used by one select / two selects (one filtered) / a search() select (fixed per instance)",
+    weight=100,
+)
+
+
+
+def c07_choices_unlabeled(usage: int, la0: bool, la1: bool, lb0: bool, lb1: bool, ima: bool, c0: int) -> bool:
+    """
+    vpre: la0 or la1 or lb0 or lb1
+    vpre: 33 <= c0 <= 126 and c0 != 36
+    vpost: _ == True
+    """
+    a = {"list_name": "l1", "name": "a"}
+    b = {"list_name": "l1", "name": "b"}
+    if la0:
+        a["label"] = S(c0, 49)
+    if la1:
+        a["label::L1"] = S(c0, 50)
+    if ima:
+        a["image"] = "a.png"
+    if lb0:
+        b["label"] = S(c0, 51)
+    if lb1:
+        b["label::L1"] = S(c0, 52)
+    rows = [{"type": "select_one l1", "name": "q1", "label": "Q1"}]
+    if usage == 1:
+        rows.append({"type": "select_multiple l1", "name": "q2", "label": "Q2", "choice_filter": "true()"})
+    survey, _w, _js = build_survey({"survey": rows, "choices": [a, b]})
+    return closure_ok(survey.xml(), "default")
+
+
+def _classify_unlabeled(call, replay):
+    """Known finding F11: a choice with no label and no media inside a list that needs itext."""
+    names = ["la0", "la1", "lb0", "lb1", "ima", "c0"]
+    args = dict(zip(names, call.get("args", [])))
+    a_bare = not (args.get("la0") or args.get("la1") or args.get("ima"))
+    b_bare = not (args.get("lb0") or args.get("lb1"))
+    return "F11" if (a_bare or b_bare) else None
+
+
+specialise(
+    "C07",
+    "b.choices-unlabeled",
+    c07_choices_unlabeled,
+    {"usage": [0]},
+    timeout=300,
+    kernel=K + ("pyxform.survey:Survey._generate_static_instances",),
+    shims=("S1", "S2", "S3", "S4"),
+    symbolic="presence of label / label::L1 on two choices and an image on the first (5 symbolic booleans, choices may be left without any label), shared tracer character",
+    bounds="one list of 2 choices used by one select; companion of b.choices without the 'every choice is labelled' assumption",
+    weight=60,
+    expect="known",
+    classifier=_classify_unlabeled,
+)
